@@ -41,6 +41,14 @@ pub struct GenCfg {
     /// lines (`*/` ×2–4, `/*`, `*/*/`, `/**/`, `*\/`, backslashes before `*/`, at line start / end). Default off: no
     /// random choice is drawn for it, so the streams of the properties that do not set it are unchanged.
     pub delimiter_text: bool,
+    /// interface HIERARCHIES (default off: the draws of `gen_schema` are unchanged): 3–6 interfaces forming a DAG — every
+    /// interface implements 0–2 earlier ones (chains of depth 1–3 and more, diamonds, several unrelated hierarchies,
+    /// stand-alone interfaces), its `implements` list being the transitive closure in RANDOM order; every non-root object
+    /// implements 0–3 interfaces picked from anywhere in the DAG (so: several unrelated hierarchies at once) and lists the
+    /// transitive closure in RANDOM order — a sub-interface before or after its parents, unrelated interfaces before,
+    /// in between and after; interfaces without any implementing object occur. All valid per spec (every transitively
+    /// implemented interface is listed, fields of all of them are present with the pool's signatures).
+    pub iface_hierarchies: bool,
 }
 
 impl Default for GenCfg {
@@ -59,6 +67,7 @@ impl Default for GenCfg {
             covariant_fields: true,
             ts_type_directive: false,
             delimiter_text: false,
+            iface_hierarchies: false,
         }
     }
 }
@@ -508,7 +517,8 @@ pub fn gen_schema(rng: &mut Rng, cfg: &GenCfg) -> SchemaModel {
     let n_ifaces = rng.below(3);
     // a single leading underscore is a legal (non-reserved) name, e.g. Apollo Federation's `_Entity`, `_Service`
     let us = rng.chance(1, 6);
-    let iface_names: Vec<String> = [if us { "_Node" } else { "Node" }, "Entity", "Named"].iter().take(n_ifaces).map(|s| s.to_string()).collect();
+    let n_ifaces = if cfg.iface_hierarchies { 3 + rng.below(4) } else { n_ifaces };
+    let iface_names: Vec<String> = [if us { "_Node" } else { "Node" }, "Entity", "Named", "Resource", "Timestamped", "Auditable"].iter().take(n_ifaces).map(|s| s.to_string()).collect();
     let n_objs = 2 + rng.below(3);
     let obj_names: Vec<String> = ["User", if us { "_Service" } else { "Post" }, "Comment", "Tag"].iter().take(n_objs).map(|s| s.to_string()).collect();
     let n_unions = rng.below(3);
@@ -573,7 +583,29 @@ pub fn gen_schema(rng: &mut Rng, cfg: &GenCfg) -> SchemaModel {
         let mut t = TypeDef::new(TypeKind::Interface, name);
         t.desc = gen_desc(rng, cfg);
         let mut must: Vec<FieldDef> = vec![];
-        if i > 0 && rng.coin() {
+        if cfg.iface_hierarchies {
+            // 0–2 direct parents among the earlier interfaces (two parents with a common ancestor = a diamond)
+            let np = if i == 0 { 0 } else { [0, 1, 1, 1, 2, 2][rng.below(6)].min(i) };
+            let mut impls: Vec<String> = vec![];
+            for _ in 0..np {
+                let parent = &iface_defs[rng.below(i)];
+                for p in parent.implements.iter().map(|x| x.0.clone()).chain(std::iter::once(parent.name.clone())) {
+                    if !impls.contains(&p) {
+                        impls.push(p);
+                    }
+                }
+            }
+            rng.shuffle(&mut impls);
+            t.implements = impls.into_iter().map(|n| (n, P::default())).collect();
+            for p in &t.implements {
+                let pd = iface_defs.iter().find(|d| d.name == p.0).unwrap();
+                for f in &pd.fields {
+                    if !must.iter().any(|m| m.name == f.name) {
+                        must.push(f.clone());
+                    }
+                }
+            }
+        } else if i > 0 && rng.coin() {
             let parent = &iface_defs[rng.below(i)];
             // transitive closure of implemented interfaces
             let mut impls: Vec<(String, P)> = parent.implements.clone();
@@ -605,7 +637,31 @@ pub fn gen_schema(rng: &mut Rng, cfg: &GenCfg) -> SchemaModel {
         t.desc = gen_desc(rng, cfg);
         let mut must: Vec<FieldDef> = vec![];
         let is_root = !obj_names.contains(name);
-        if !is_root && !iface_defs.is_empty() && rng.chance(3, 5) {
+        if cfg.iface_hierarchies {
+            if !is_root && rng.chance(5, 6) {
+                // 1–3 interfaces from anywhere in the DAG, closed under "implements", in random order
+                let k = [1, 1, 2, 2, 3][rng.below(5)];
+                let mut impls: Vec<String> = vec![];
+                for _ in 0..k {
+                    let ifc = &iface_defs[rng.below(iface_defs.len())];
+                    for p in ifc.implements.iter().map(|x| x.0.clone()).chain(std::iter::once(ifc.name.clone())) {
+                        if !impls.contains(&p) {
+                            impls.push(p);
+                        }
+                    }
+                }
+                rng.shuffle(&mut impls);
+                for p in &impls {
+                    let pd = iface_defs.iter().find(|d| &d.name == p).unwrap();
+                    for f in &pd.fields {
+                        if !must.iter().any(|m| m.name == f.name) {
+                            must.push(f.clone());
+                        }
+                    }
+                }
+                t.implements = impls.into_iter().map(|n| (n, P::default())).collect();
+            }
+        } else if !is_root && !iface_defs.is_empty() && rng.chance(3, 5) {
             let k = rng.below(iface_defs.len());
             let ifc = &iface_defs[k];
             let mut impls = ifc.implements.clone();
@@ -733,6 +789,66 @@ pub fn gen_schema(rng: &mut Rng, cfg: &GenCfg) -> SchemaModel {
         rng.shuffle(&mut items);
     }
     SchemaModel { doc: TsDoc { items }, query, mutation, subscription }
+}
+
+/// Shape of the interface hierarchy of a (merged) schema, for the input-distribution part of a report:
+/// depth of the "implements" DAG, diamonds, how objects ORDER their `implements` lists relative to the hierarchy.
+pub fn iface_shape_features(schema: &SchemaModel) -> BTreeSet<String> {
+    let mut out = BTreeSet::new();
+    let ifaces: Vec<&TypeDef> = schema.types().filter(|t| t.kind == TypeKind::Interface).collect();
+    let parents_of = |n: &str| -> Vec<String> { ifaces.iter().find(|d| d.name == n).map(|d| d.implements.iter().map(|x| x.0.clone()).collect()).unwrap_or_default() };
+    // depth: longest chain i ▸ p1 ▸ p2 … along listed parents (lists are transitively closed, so length of the list
+    // bounds it; the chain length is computed on the DAG)
+    fn depth(n: &str, parents_of: &dyn Fn(&str) -> Vec<String>, fuel: usize) -> usize {
+        if fuel == 0 {
+            return 0;
+        }
+        parents_of(n).iter().map(|p| 1 + depth(p, parents_of, fuel - 1)).max().unwrap_or(0)
+    }
+    let mut maxd = 0;
+    for i in &ifaces {
+        let d = depth(&i.name, &parents_of, 8);
+        maxd = maxd.max(d);
+        // diamond: two listed parents, neither an ancestor of the other, with a common ancestor
+        let ps = parents_of(&i.name);
+        for a in &ps {
+            for b in &ps {
+                if a < b && !parents_of(a).contains(b) && !parents_of(b).contains(a) && parents_of(a).iter().any(|x| parents_of(b).contains(x)) {
+                    out.insert("iface:diamond".to_string());
+                }
+            }
+        }
+        if schema.possible_types(&i.name).is_empty() {
+            out.insert("iface:without-implementing-object".to_string());
+        }
+    }
+    out.insert(format!("iface:hierarchy-depth:{}", maxd.min(4)));
+    let roots = ifaces.iter().filter(|i| i.implements.is_empty()).count();
+    if roots >= 2 {
+        out.insert("iface:several-unrelated-hierarchies".to_string());
+    }
+    for o in schema.types().filter(|t| t.kind == TypeKind::Object) {
+        let l: Vec<&str> = o.implements.iter().map(|x| x.0.as_str()).collect();
+        if l.len() >= 2 {
+            out.insert("object:implements-several".to_string());
+        }
+        for (ai, a) in l.iter().enumerate() {
+            let pa = parents_of(a);
+            for (bi, b) in l.iter().enumerate() {
+                if ai == bi {
+                    continue;
+                }
+                let related = pa.iter().any(|x| x == b) || parents_of(b).iter().any(|x| x == a);
+                if pa.iter().any(|x| x == b) {
+                    out.insert(if ai < bi { "object:lists-sub-interface-before-its-parent" } else { "object:lists-sub-interface-after-its-parent" }.to_string());
+                }
+                if !related && !pa.is_empty() {
+                    out.insert(if ai < bi { "object:lists-inheriting-interface-before-unrelated-one" } else { "object:lists-unrelated-interface-before-inheriting-one" }.to_string());
+                }
+            }
+        }
+    }
+    out
 }
 
 /// Split some components of definitions into `extend …` items (same merged meaning), optionally shuffled.
